@@ -123,7 +123,7 @@ def check(run):
             continue
         if r.random() < 0.15:
             s.parse_err = ("MyErr", "my_err")     # custom error attributes must not stop the catch-all from capturing
-        units.append(shards.Unit("u_" + s.name.lower(), glue_default(s), meta={"enum_src": s.render()}, sig="default," + s.signature(), head=(strgen.CAPTURE_HEAD, c18.ERR_HEAD)))
+        units.append(shards.Unit("u_" + s.name.lower(), glue_default(s), meta={"enum_src": s.render(), "bare_src": s.render_bare()}, sig="default," + s.signature(), head=(strgen.CAPTURE_HEAD, c18.ERR_HEAD)))
     # the same capture through the use_phf parser (field-less siblings, strum built with the phf feature)
     punits = []
     j = 0
@@ -138,7 +138,7 @@ def check(run):
         s.use_phf = True
         if model.overlaps(s):
             continue
-        punits.append(shards.Unit("u_" + s.name.lower(), glue_default(s), meta={"enum_src": s.render()}, sig="default,phf," + s.signature(), head=(strgen.CAPTURE_HEAD, c18.ERR_HEAD)))
+        punits.append(shards.Unit("u_" + s.name.lower(), glue_default(s), meta={"enum_src": s.render(), "bare_src": s.render_bare()}, sig="default,phf," + s.signature(), head=(strgen.CAPTURE_HEAD, c18.ERR_HEAD)))
     tunits = []
     for j in range(2000 if thorough else 360):
         body, src = build_transparent(r, "T%d" % j, j % 3)
